@@ -47,7 +47,7 @@ def run(ctx, chk):
         cat, detail = classify(ctx, heap, f, node, kind, target)
         cats[cat] = cats.get(cat, 0) + 1
         ok = cat != "FINDING"
-        tnorm = norm_target(target)
+        tnorm = norm_target(target, ctx, f)
         chk.ob("C20.R1", "%s: %s `%s` -> %s" % (f.key.split(":")[1], kind, target[:60], cat if ok else "unsynchronised"),
                ok, detail + " [%s]" % why,
                key={"function": f.key, "target": tnorm}, file=f.file, function=f.qual, line=node.lineno,
@@ -56,14 +56,49 @@ def run(ctx, chk):
     chk.assume("thread-local and lock idioms are recognised syntactically: `with <name containing lock>`")
 
 
-def norm_target(t):
+def norm_target(t, ctx=None, f=None):
+    """stable spelling of a write target: mutator suffix dropped, subscript indices and the names of locals
+    abstracted (a local is replaced by the class it is known to hold), so that renaming a local does not change the key"""
     t = " ".join(t.split())
     for m in MUTATORS:
         if t.endswith("." + m):
             t = t[: -len(m) - 1]
     if t.startswith("setattr("):
-        t = "setattr(self, key, value)" if "self" in t else t
-    return t[:100]
+        return "setattr(self, key, value)" if "self" in t else t[:100]
+    if ctx is None or f is None:
+        return t[:100]
+    try:
+        e = ast.parse(t, mode="eval").body
+    except SyntaxError:
+        return t[:100]
+
+    class N(ast.NodeTransformer):
+        def visit_Subscript(self, node):
+            node.value = self.visit(node.value)
+            node.slice = ast.Name(id="*", ctx=ast.Load())
+            return node
+
+        def visit_Name(self, node):
+            if node.id in ("self", "cls") or node.id in f.params():
+                return node
+            ent = ctx.ix.lookup_module_attr(f.module, node.id)
+            g = f
+            local = False
+            while g is not None:
+                if g.qual != "<module>" and any(isinstance(x, ast.Name) and isinstance(x.ctx, ast.Store) and x.id == node.id
+                                                for x in iter_own_nodes(g.node)):
+                    local = True
+                g = g.parent
+            if not local and ent is not None:
+                return node
+            cls = sorted(t_[2:].split(":")[1] for t_ in ctx.ti.type_of(ast.Name(id=node.id, ctx=ast.Load()), f)
+                         if isinstance(t_, str) and t_.startswith("C:"))
+            node.id = "<%s>" % (cls[0] if cls else "local")
+            return node
+    try:
+        return ast.unparse(N().visit(e))[:100]
+    except Exception:
+        return t[:100]
 
 
 def _root_name(e):
